@@ -245,7 +245,7 @@ func execute(e *Engine, prop, tier string, seed uint64, t *Tape, opt map[string]
 				switch x := p.(type) {
 				case violationPanic:
 					res.Viol = x.v
-					r.Logf("VIOLATION %s: %s", x.v.Sig, x.v.Msg)
+					r.Logf("VIOLATION %s", x.v.Sig) // the message may carry measured values (bytes allocated); it stays out of the event log
 				case HarnessError:
 					res.HarnessErr = x.Msg
 				default:
